@@ -61,3 +61,24 @@ std::vector<VolLoc> find_volumes_bad(const unsigned char *table, unsigned spt)
     }
   return locations_;
 }
+
+// R-C01-8: extents derived before the list is sorted
+#include <algorithm>
+struct Loc8 { unsigned long s, n; bool operator<(const Loc8& o) const { return s < o.s; } unsigned long start_sector() const { return s; } void set_next_sector(unsigned long x) { n = x; } };
+class OpusDiscCatalogue8 {
+ public:
+  OpusDiscCatalogue8(const unsigned long *starts, int count, unsigned long total);
+  std::vector<Loc8> locations_;
+};
+OpusDiscCatalogue8::OpusDiscCatalogue8(const unsigned long *starts, int count, unsigned long total)
+{
+  for (int i = 0; i < count; ++i)
+    locations_.push_back(Loc8{starts[i], 0});
+  unsigned long next_sector = total;
+  for (auto it = locations_.rbegin(); it != locations_.rend(); ++it)	// BAD: not sorted yet
+    {
+      it->set_next_sector(next_sector);
+      next_sector = it->start_sector();
+    }
+  std::sort(locations_.begin(), locations_.end());
+}
